@@ -14,7 +14,7 @@ import (
 func TestVerif_C36(t *testing.T) {
 	r := verifrt.Start(t, "C36")
 	defer r.Finish()
-	r.Rule("case = one fresh singleton name on 3 real actor systems (real remoting, shared linearizable fake registry, harness-controlled leader view) x one scenario drawn from: stable-burst (2-8 simultaneous SpawnSingleton calls from all nodes, one leader), stable-burst-role (role-pinned), sequential-flip (spawn, leader change, spawn again), respawn (stop racing re-spawn), publish-fail / precheck-fail (registry failure at the leader's record publication / name check; re-spawn after the rolled-back instance is gone), publish-fail-racing-respawn (re-spawn while the leader's busy death watch has not yet removed the rolled-back instance), flip-between-check-and-publish, flip-after-members, flip-random (leader changes while calls are in flight), split-view (two nodes each see themselves as leader); logical nodes A,B,C are a seeded permutation. oracle = process-wide live-instance gauge per name kept by the harness actor (PreStart success .. PostStop entry) must never exceed 1; the settled registry-vs-host comparison is recorded as evidence only. non-trivial = the scenario's interleaving was reached (hold point hit / fault fired / flip applied / >=1 successful spawn under contention), measured; distinct by scenario, permutation and seed")
+	r.Rule("case = one fresh singleton name on 3 real actor systems (real remoting, shared linearizable fake registry, harness-controlled leader view) x one scenario drawn from: stable-burst (2-8 simultaneous SpawnSingleton calls from all nodes, one leader), stable-burst-role (role-pinned), sequential-flip (spawn, leader change, spawn again), respawn (stop racing re-spawn), held-after-absent-check (stable leader; the first caller is held right after its registry name check said absent, more callers arrive locally and through RemoteSpawn, any caller whose own check also says absent is held until the first caller's SpawnSingleton has returned), publish-fail / precheck-fail (registry failure at the leader's record publication / name check; re-spawn after the rolled-back instance is gone), publish-fail-racing-respawn (re-spawn while the leader's busy death watch has not yet removed the rolled-back instance), flip-between-check-and-publish, flip-after-members, flip-random (leader changes while calls are in flight), split-view (two nodes each see themselves as leader); logical nodes A,B,C are a seeded permutation. oracle = process-wide live-instance gauge per name kept by the harness actor (PreStart success .. PostStop entry) must never exceed 1; the settled registry-vs-host comparison is recorded as evidence only. non-trivial = the scenario's interleaving was reached (hold point hit / fault fired / flip applied / >=1 successful spawn under contention), measured; distinct by scenario, permutation and seed")
 	r.Assume("the registry (olric DMap) is linearizable per key and its NX put is atomic; the fake registry implements exactly that with one mutex")
 	r.Assume("a leader change is modelled as the coordinator flag moving in the member list every node reads (all views at once, or one node's view for split-view); real membership convergence is not modelled beyond that")
 
@@ -62,6 +62,7 @@ func TestVerif_C36(t *testing.T) {
 		r.Count("leader_flips_during_calls", out.Flips)
 		r.Count("registry_faults_injected", out.Injected)
 		r.Count("holds_hit", out.GatesHit)
+		r.Count("callers_held_after_a_second_absent_name_check", out.HeldLate)
 		r.Count("delays_injected", out.Delays)
 		r.Count("spawn_calls_ok", int64(out.CallOK))
 		r.Count("spawn_calls_failed", int64(out.CallErr))
